@@ -14,6 +14,7 @@ import (
 	"os"
 	"sort"
 	"strings"
+	"sync"
 	"time"
 
 	"github.com/ethereum/go-ethereum/crypto"
@@ -168,6 +169,7 @@ type Trace struct {
 	w   *bufio.Writer
 	n   int
 	bad []string // problems of the current line (abstraction failures)
+	mu  sync.Mutex
 }
 
 func newTrace(path string) (*Trace, error) {
@@ -179,6 +181,8 @@ func newTrace(path string) (*Trace, error) {
 }
 
 func (t *Trace) flagBad(format string, args ...interface{}) {
+	t.mu.Lock()
+	defer t.mu.Unlock()
 	t.bad = append(t.bad, fmt.Sprintf(format, args...))
 }
 
